@@ -99,7 +99,7 @@ def fail_conditions(atom):
             return []
         lo, hi, incl = rb
         x = t[2][1]
-        inside_true = not atom.neg  # condition as written is `contains` (True) or `!contains`
+        inside_true = True  # true_* / false_* are relative to the stripped `contains` term
         # outcome when x is OUTSIDE the range:
         outside_fails = atom.false_fail if inside_true else atom.true_fail
         inside_fails = atom.true_fail if inside_true else atom.false_fail
